@@ -331,3 +331,36 @@ func TestSelectSendAndStaleTimer(t *testing.T) {
 		t.Fatalf("stop=%d recv=%d slept=%d", w.Stop, recv, slept)
 	}
 }
+
+type cleanupObj struct{ buf []int }
+
+func TestAddCleanupRunsAtSimulatedGC(t *testing.T) {
+	w := NewWorld(5, Config{Policy: Fair, Quantum: 10, MaxSteps: 1_000_000})
+	ran := 0
+	var keepAlive *cleanupObj
+	w.Spawn("t", 1, func() {
+		a := &cleanupObj{buf: make([]int, 8)}
+		b := &cleanupObj{buf: make([]int, 8)}
+		AddCleanup(a, func(k int) { ran += k }, 1)
+		AddCleanup(b, func(k int) { ran += k }, 10)
+		keepAlive = b
+		a = nil
+		Y(1)
+		PoolGC() // a is unreachable, b is not
+		if ran != 1 {
+			t.Errorf("after first GC point: ran=%d, want 1", ran)
+		}
+		keepAlive = nil
+		b = nil
+		Y(1)
+		PoolGC()
+		if ran != 11 {
+			t.Errorf("after second GC point: ran=%d, want 11", ran)
+		}
+	})
+	w.Run()
+	_ = keepAlive
+	if w.St.CleanupsAdded != 2 || w.St.CleanupsRun != 2 {
+		t.Errorf("stats: added %d run %d", w.St.CleanupsAdded, w.St.CleanupsRun)
+	}
+}
